@@ -198,6 +198,8 @@ def mon_ledger(h, obs, prop):
     dirty_keys = set()       # keys written in the current block (for query attribution)
     added_keys = set()
     unknown = set()          # keys whose value the reference cannot know (un-journaled Add across a revert)
+    unknown_at = {}          # height -> keys that were unknown when that height was committed
+    jmin = 0                 # lowest height whose journal is retained (0 = none yet)
     unflushed = False        # writes since the last flush
     uncommitted = False      # a flush that was not committed yet
     next_commit = 1
@@ -264,15 +266,22 @@ def mon_ledger(h, obs, prop):
             if o == "ok":
                 ref.height = int(ws[1])
                 ref.committed[ref.height] = ref.freeze()
+                unknown_at[ref.height] = set(unknown)
                 dirty_keys, added_keys = set(), set()
                 uncommitted = False
                 next_commit = ref.height + 1
+                if jmin == 0:
+                    jmin = ref.height
+                if ref.height > 10:
+                    jmin = max(jmin, ref.height - 10)
         elif k0 == "rollback":
             t = int(ws[1])
             hi = ref.height
             # journals of the last 10 heights are retained; pruning starts when h-10 > 1, and height 0 stays a
             # valid target as long as the journal of height 1 is still there
-            lo = hi - 10 if hi - 10 > 1 else 0
+            # valid targets: the heights whose journals are retained, and the genesis height 0 while the journal of
+            # height 1 is still there (journals below max-10 are pruned at commit time and do not come back)
+            lo = 0 if jmin <= 1 else jmin
             if o == "ok":
                 if t > hi:
                     hit("C12", "C12/rollback-to-higher-accepted", f"rollback to {t} accepted at height {hi}", op)
@@ -280,11 +289,14 @@ def mon_ledger(h, obs, prop):
                     hit("C12", "C12/rollback-beyond-window-accepted", f"rollback to {t} accepted at height {hi} (window is 10)", op)
                 elif t in ref.committed:
                     ref.thaw(ref.committed[t])
+                    unknown = set(unknown_at.get(t, set()))
                     ref.height = t
                     for x in [x for x in ref.committed if x > t]:
                         del ref.committed[x]
                     after_rollback = True
                     next_commit = t + 1
+                    if t == 0:
+                        jmin = 0
                     dirty_keys, added_keys = set(), set()
                     ref.journal, ref.snaps = [], []
             else:
